@@ -120,6 +120,113 @@ def text_feature(text):
     return "plain"
 
 
+# ---------------------------------------------------------------- reader-option family
+
+GIVEN = ["m", "n", "o"]
+
+
+def option_universe():
+    """header in {infer, 0, 1, 2, None} x names in {absent, given} x skiprows in {0, 1, 2, [0], [1]} x comment in {no, '#'}
+    (o.hdr: -1 infer, -2 None; o.skip: the skipped physical line numbers; o.sf: how skiprows is spelled)"""
+    out = []
+    for hdr in (-1, 0, 1, 2, -2):
+        for names in (False, True):
+            for skip, sf in (([], "none"), ([0], "int"), ([0, 1], "int"), ([0], "list"), ([1], "list")):
+                for comment in (False, True):
+                    out.append({"hdr": hdr, "names": names, "skip": skip, "sf": sf, "comment": comment})
+    return out
+
+
+def random_optfile(rng, nc=None):
+    """a small file: 0..2 junk / comment / blank lines, the header line, 1..3 data rows (an optional blank line between
+    them), with or without final newline; every line has nc fields whatever it is used as"""
+    nc = nc or rng.choice([1, 1, 2])
+    if nc == 1:
+        junk, com, hdr, menu = "q", "#c", "a", ["1", "ab", '"a,b"', "b7", "7"]
+    else:
+        junk, com, hdr, menu = "x,y", "#c,d", "a,b", ["1,2", "ab,b7", '"a,b",z', "3,w"]
+    top = [rng.choice([junk, junk, com, ""]) for _ in range(rng.choice([0, 1, 1, 2, 2]))]
+    rows = [rng.choice(menu) for _ in range(rng.choice([1, 2, 2, 3]))]
+    if len(rows) > 1 and rng.random() < 0.25:
+        rows.insert(rng.randint(1, len(rows) - 1), "")
+    text = "\n".join(top + [hdr] + rows) + ("\n" if rng.random() < 0.8 else "")
+    return list(text.encode())
+
+
+def opt_kwargs(o, nc):
+    kw = {}
+    if o["hdr"] == -2:
+        kw["header"] = None
+    elif o["hdr"] >= 0:
+        kw["header"] = o["hdr"]
+    if o["names"]:
+        kw["names"] = GIVEN[:nc]
+    if o["skip"]:
+        kw["skiprows"] = len(o["skip"]) if o["sf"] == "int" else list(o["skip"])
+    if o["comment"]:
+        kw["comment"] = "#"
+    return kw
+
+
+def ncols_of(text):
+    """number of fields of the lines of an option file (all lines that are not blank have the same number)"""
+    for line in bytes(text).decode().split("\n"):
+        if line:
+            return len(next(csv.reader([line])))
+    return 1
+
+
+def _frame_obs(g):
+    hdr = [_enc(str(c)) for c in g.columns]
+    rows = [[_enc(v) if isinstance(v, str) else [0] for v in row] for row in g.values.tolist()]
+    return hdr, rows
+
+
+def pandas_opts(text, o):
+    """pandas.read_csv on the whole file with the same options: (err, hdr, rows)"""
+    import pandas as pd
+    try:
+        df = pd.read_csv(io.BytesIO(bytes(text)), dtype=str, keep_default_na=False, **opt_kwargs(o, ncols_of(text)))
+    except Exception:  # noqa: BLE001
+        return True, [], []
+    hdr, rows = _frame_obs(df)
+    return False, hdr, rows
+
+
+def observe_opts(call):
+    """dd.read_csv(file, blocksize=bs, <options>, dtype=str, keep_default_na=False) -> {raised, hdr, rows}"""
+    import warnings
+
+    from ..frames import dd, is_shim_error
+    ddm = dd()
+    p = os.path.join(_dir(), "o%d.csv" % next(_SEQ))
+    with open(p, "wb") as f:
+        f.write(bytes(call["text"]))
+    try:
+        kw = {"blocksize": call["bs"], "dtype": str, "keep_default_na": False}
+        kw.update(opt_kwargs(call["o"], ncols_of(call["text"])))
+        if call["sample"] is not None:
+            kw["sample"] = call["sample"]
+        with warnings.catch_warnings():
+            warnings.simplefilter("ignore")
+            g = ddm.read_csv(p, **kw).compute(scheduler="sync")
+        hdr, rows = _frame_obs(g)
+        return {"raised": False, "hdr": hdr, "rows": rows}
+    except NotImplementedError as ex:
+        return {"skip": "NotImplementedError: " + str(ex)[:60]}
+    except Exception as ex:  # noqa: BLE001
+        if is_shim_error(ex):
+            raise MachineryError("pyarrow shim: %r" % (ex,))
+        if isinstance(ex, ValueError) and "Sample is not large enough" in str(ex):
+            return {"skip": "read_csv: 'Sample is not large enough to include at least one row of data' (documented; increase sample=)"}
+        return {"raised": True, "hdr": [], "rows": [], "msg": "%s: %s" % (type(ex).__name__, str(ex)[:160])}
+    finally:
+        try:
+            os.remove(p)
+        except OSError:
+            pass
+
+
 # ---------------------------------------------------------------- frame family
 
 def random_frames(rng, n, tiny):
@@ -274,6 +381,13 @@ def py_records(file_bytes):
 
 def py_bad(rec, expect):
     obs = rec["obs"]
+    if rec["kind"] == "opts":
+        e = expect["r"]
+        if e["err"]:
+            return set()            # pandas raises on the whole file: don't-care
+        if obs["raised"]:
+            return {"Raised"}
+        return ({"Header"} if obs["hdr"] != e["hdr"] else set()) | ({"Rows"} if obs["rows"] != e["rows"] else set())
     if obs["raised"]:
         return {"Raised"}
     bad = set()
@@ -299,11 +413,69 @@ def py_bad(rec, expect):
 HEADER_FEATURES = ("row-equals-header-line", "row-begins-with-header-text")
 
 
+def covered(call):
+    """does the first block hold the whole top of the file (skipped lines and header line), per the specification"""
+    cov = call["expect"]["cov"]
+    return call["bs"] > len(cov) or bool(cov[call["bs"] - 1])
+
+
+def sample_holds_top(call):
+    """does the sample read_pandas looks at hold the whole top of the file?  The sample is `sample` bytes extended to the
+    next line end; with skiprows it is cut down to the blocksize ('Setting sample=blocksize'); sample=False is the first block"""
+    if call["sample"] is False:
+        return covered(call)
+    n = 256000 if call["sample"] is None else call["sample"]
+    if call["o"]["skip"] and call["bs"] < n:
+        n = call["bs"]
+    text = bytes(call["text"])
+    end = text.find(b"\n", max(0, n - 1))
+    held = len(text) if end < 0 or n >= len(text) else end + 1
+    return held >= call["expect"]["top"]
+
+
+def blank_or_comment_before_header(call):
+    """is there, among the physical lines up to the header line, a blank line that is not skipped, or (with comment=) a
+    comment line: the places where the physical line number and pandas' count of remaining lines part"""
+    o = call["o"]
+    lines = bytes(call["text"]).decode().split("\n")[:call["expect"]["toplines"]]
+    return any((x == "" and i not in o["skip"]) or (o["comment"] and x.startswith("#")) for i, x in enumerate(lines))
+
+
+def opts_class(call):
+    """input class of a reader-option case (never concrete numbers).  Two classes are root causes of their own:
+    the top of the file split across blocks, and a blank / comment line before the header line."""
+    o = call["o"]
+    body = bytes(call["text"]).decode().split("\n")[call["expect"]["toplines"]:]
+    if not covered(call):
+        return "top-of-file-split-across-blocks"
+    if o["comment"] and (o["skip"] or o["hdr"] > 0):
+        return "comment-with-skiprows-or-header-row"
+    if blank_or_comment_before_header(call):
+        return "blank-or-comment-line-before-header"
+    if o["sf"] == "list" and o["hdr"] > 0:
+        return "skiprows-list-with-header-row"
+    if o["hdr"] == -2 and not o["names"] and any(x == "" or (o["comment"] and x.startswith("#")) for x in body[:-1]):
+        return "header-None-later-block-without-data"
+    hdr = {-1: "infer", -2: "None", 0: "0"}.get(o["hdr"], "k>0")
+    lines = bytes(call["text"]).decode().split("\n")
+    feats = []
+    if "" in lines[:-1]:
+        feats.append("blank-line")
+    if any(x.startswith("#") for x in lines):
+        feats.append("comment-line" if o["comment"] else "hash-line")
+    return "header=%s:%s:skiprows=%s:%s:sample=%s" % (
+        hdr, "names" if o["names"] else "nonames", o["sf"], "+".join(feats) or "plain",
+        {None: "default", False: "False"}.get(call["sample"], "small"))
+
+
 def classify(call, clauses, obs=None):
     """family : clause : input class.  A text / written file in which a data row begins with the text of the header
     line, read with a blocksize smaller than the file, is one input class of its own (one root cause)."""
-    order = ["Rows", "ReadBack", "Files", "Header", "Raised"]
+    order = ["Rows", "ReadBack", "Files", "Header", "Raised", "ErrorExpected"]
     clause = sorted(clauses, key=lambda c: order.index(c) if c in order else 99)[0]
+    if call["kind"] == "opts":
+        oc = opts_class(call)
+        return "opts:%s" % oc if "=" not in oc else "opts:%s:%s" % (clause, oc)
     if call["kind"] == "blocks":
         feat = text_feature(call["text"])
         if feat in HEADER_FEATURES and call["bs"] >= len(call["text"]):
@@ -331,20 +503,49 @@ def classify(call, clauses, obs=None):
 # ---------------------------------------------------------------- core
 
 def _work(call):
-    return call, (observe_blocks(call) if call["kind"] == "blocks" else observe_roundtrip(call))
+    fn = {"blocks": observe_blocks, "opts": observe_opts, "roundtrip": observe_roundtrip}[call["kind"]]
+    return call, fn(call)
 
 
-def export_cases(ctx, shapes, frames, maxtext, label):
+def _tla_opt(o):
+    return {"hdr": o["hdr"], "names": o["names"], "nc": o["nc"], "skip": list(o["skip"]), "comment": o["comment"]}
+
+
+def export_cases(ctx, shapes, frames, maxtext, label, optcases=()):
     consts = {"Shapes": TLA(shapes), "Menu": MENU, "MaxText": maxtext, "MaxParts": 4,
-              "Frames": TLA("<<" + ", ".join(tla_value(f) for f in frames) + ">>")}
+              "Frames": TLA("<<" + ", ".join(tla_value(f) for f in frames) + ">>"),
+              "OptCases": TLA("<<" + ", ".join(tla_value({"text": t, "o": _tla_opt(o)}) for t, o in optcases) + ">>")}
     spec, cfg = ctx.model(ctx.spec("frame", "CsvBlocksMC.tla"), consts,
                           invariants=["ParseInvertsWrite", "BlocksizeInvariant", "RoundTripStrings", "FilesBlocksizeInvariant",
-                                      "RenderInjective"])
+                                      "RenderInjective", "OptsBlocksizeInvariant", "OptsDefaultIsParse"])
     cases, _ = ctx.tlc_cases(spec, cfg, label=label, timeout=2400)
     texts = sorted((c for c in cases if c["c"]["fam"] == "text"), key=lambda c: (len(c["e"]["text"]), c["e"]["text"]))
     fcases = sorted((c for c in cases if c["c"]["fam"] == "frame"),
                     key=lambda c: (c["c"]["f"], c["c"]["lay"], c["c"]["single"], c["c"]["wi"]))
-    return texts, fcases
+    ocases = {c["c"]["k"]: c["e"] for c in cases if c["c"]["fam"] == "opts"}
+    if len(ocases) != len(optcases):
+        raise MachineryError("TLC exported %d of %d reader-option cases" % (len(ocases), len(optcases)))
+    return texts, fcases, [(t, o, ocases[k + 1]) for k, (t, o) in enumerate(optcases)]
+
+
+def plan_optcases(rng, per_option, core_files):
+    """(text, options): every option combination x `per_option` seeded files, plus all combinations on a few fixed files"""
+    fixed = [list(b"q\na\n1\nab\n"), list(b"x,y\n#c,d\na,b\n1,2\nab,b7\n"), list(b"\na\n1\n\nb7\n7\n")][:core_files]
+    out = []
+    for o in option_universe():
+        for f in fixed + [random_optfile(rng) for _ in range(per_option)]:
+            out.append((f, dict(o, nc=ncols_of(f))))
+    return out
+
+
+def guard_opts(ocases):
+    """ReadOpts of the specification against pandas.read_csv with the same options on the whole file"""
+    for text, o, e in ocases:
+        err, hdr, rows = pandas_opts(text, o)
+        r = e["r"]
+        if err != r["err"] or (not err and (hdr != r["hdr"] or rows != r["rows"])):
+            raise MachineryError("ReadOpts disagrees with pandas.read_csv(%r) on %r: pandas %r, specification %r"
+                                 % (opt_kwargs(o, ncols_of(text)), bytes(text), (err, hdr, rows), r))
 
 
 def guard(texts, fcases, frames):
@@ -364,8 +565,17 @@ def guard(texts, fcases, frames):
                 raise MachineryError("frame %r: %s" % (frames[c["c"]["f"] - 1], why))
 
 
-def plan(rng, texts, fcases, frames, all_bs_texts, ntext, nbs, nframe):
+def plan(rng, texts, fcases, frames, all_bs_texts, ntext, nbs, nframe, ocases=(), all_bs_opts=0, nbs_opts=3):
     calls = []
+    # reader options: every blocksize for a seeded selection (block boundaries inside the skipped / header region
+    # included), a few blocksizes for the others; the sample is the default, the first block, or a few bytes
+    pick = set(rng.sample(range(len(ocases)), min(all_bs_opts, len(ocases))))
+    for i, (text, o, e) in enumerate(ocases):
+        n = len(text)
+        bss = list(range(1, n + 2)) if i in pick else sorted(set(rng.sample(range(1, n + 2), min(nbs_opts, n + 1))))
+        for bs in bss:
+            calls.append({"kind": "opts", "text": text, "o": o, "bs": bs, "sample": rng.choice([None, None, None, False, 4]),
+                          "expect": e})
     pick_all = set(rng.sample(range(len(texts)), min(all_bs_texts, len(texts))))
     # the shortest texts and a seeded selection get EVERY blocksize; further texts a few blocksizes
     some = set(rng.sample(range(len(texts)), min(ntext, len(texts))))
@@ -389,6 +599,19 @@ def plan(rng, texts, fcases, frames, all_bs_texts, ntext, nbs, nframe):
     return calls
 
 
+def documented_limit(call, obs):
+    """a rejected reader-option record that falls under a documented restriction of block-wise reading (counted as a
+    skip, not judged): the top of the file - the skipped lines and the header line - must lie in the first block and in
+    the sample (read_pandas warns 'Unexpected behavior can result from passing skiprows when blocksize is smaller than
+    sample size' and asks for a larger sample=)"""
+    if not covered(call) and call["o"]["skip"]:
+        return "skiprows with a block boundary inside the skipped / header region (documented: unexpected behavior)"
+    if not sample_holds_top(call) and (call["o"]["skip"] or call["sample"] not in (None, False)):
+        return "the sample (sample= bytes; cut down to the blocksize when skiprows is given) does not hold the top of the file " \
+               "(documented: increase sample= / 'unexpected behavior ... Setting sample=blocksize')"
+    return None
+
+
 def collect(ctx, calls, parallel=True, prefix=""):
     """run dask on every call and record: (records, owner)"""
     results = pmap(_work, calls, chunk=50) if parallel else [_work(c) for c in calls]
@@ -398,7 +621,12 @@ def collect(ctx, calls, parallel=True, prefix=""):
             ctx.skip(obs["skip"])
             continue
         rid = "%sr%d" % (prefix, len(recs))
-        if call["kind"] == "blocks":
+        if call["kind"] == "opts":
+            rec = {"id": rid, "kind": "opts", "text": call["text"], "o": _tla_opt(call["o"]),
+                   "obs": {"raised": obs["raised"], "hdr": obs["hdr"], "rows": obs["rows"]}}
+            ctx.count(("opts", call["text"], call["o"], call["bs"], call["sample"]),
+                      call["bs"] < len(call["text"]) and not call["expect"]["r"]["err"] and len(call["expect"]["r"]["rows"]) >= 1)
+        elif call["kind"] == "blocks":
             rec = {"id": rid, "kind": "blocks", "text": call["text"],
                    "obs": {"raised": obs["raised"], "hdr": obs["hdr"], "rows": obs["rows"]}}
             ctx.count(("blocks", call["text"], call["bs"], call["sample"]), call["bs"] < len(call["text"]) and len(call["expect"]["rows"]) >= 2)
@@ -427,7 +655,10 @@ def decide(ctx, recs, owner, report):
             py = py_bad(rec, call["expect"])
             if tl != py:
                 raise MachineryError("TLC and the Python twin disagree on %r: TLC %r, Python %r" % (rec, sorted(tl), sorted(py)))
-            if tl:
+            why = documented_limit(call, obs) if tl and call["kind"] == "opts" else None
+            if why:
+                ctx.skip(why)
+            elif tl:
                 nviol += 1
                 what = "TLC rejects a recorded %s call (%s)%s" % (rec["kind"], ", ".join(sorted(tl)), (": " + obs["msg"]) if obs.get("msg") else "")
                 report(classify(call, tl, obs), what, {"call": call, "observed": obs}, rec["id"])
@@ -445,10 +676,12 @@ def run(ctx):
     rng = ctx.rng
     frames = random_frames(rng, ctx.pick(40, 200), True)
     shapes = ctx.pick("{<<1, 3, 7>>, <<2, 1, 7>>, <<2, 2, 4>>, <<3, 1, 5>>}", "{<<1, 4, 7>>, <<2, 2, 7>>, <<3, 1, 7>>}")
-    texts, fcases = export_cases(ctx, shapes, frames, 24, "design+cases")
+    optcases = plan_optcases(rng, ctx.pick(5, 60), 3)
+    texts, fcases, ocases = export_cases(ctx, shapes, frames, 24, "design+cases", optcases)
     guard(texts, fcases, frames)
+    guard_opts(ocases)
     calls = plan(rng, texts, fcases, frames, all_bs_texts=ctx.pick(60, 1500), ntext=ctx.pick(450, 10 ** 9), nbs=4,
-                 nframe=ctx.pick(1200, 8000))
+                 nframe=ctx.pick(1200, 8000), ocases=ocases, all_bs_opts=ctx.pick(80, 1500), nbs_opts=ctx.pick(3, 5))
     _, nrec = core(ctx, calls, ctx.violation)
     ctx.sample({"text": bytes(texts[len(texts) // 2]["e"]["text"]).decode(), "parse": "hdr %r rows %r" % (
         [bytes(x).decode() for x in texts[len(texts) // 2]["e"]["hdr"]],
@@ -463,6 +696,7 @@ def run(ctx):
                 "blocksize smaller than the file / frame with >= 2 rows in >= 2 partitions")
     ctx.extra["texts_enumerated_by_tlc"] = len(texts)
     ctx.extra["frame_cases_enumerated_by_tlc"] = len(fcases)
+    ctx.extra["reader_option_cases_evaluated_by_tlc"] = len(ocases)
     ctx.extra["records_decided_by_tlc"] = nrec
     ctx.extra["parquet_half"] = "NOT DECIDED: pyarrow is not installed; to_parquet / read_parquet cannot run"
     ctx.assumptions = ["pandas parses / writes one block correctly (guarded against the TLA+ parse / write on every case)",
@@ -479,7 +713,10 @@ def replay(ctx, obj):
     if "skip" in obs:
         return False
     rec = {"id": "r0", "kind": call["kind"]}
-    if call["kind"] == "blocks":
+    if call["kind"] == "opts":
+        rec.update(text=call["text"], o=_tla_opt(call["o"]), obs={"raised": obs["raised"], "hdr": obs["hdr"], "rows": obs["rows"]})
+        print("pandas.read_csv on the whole file:", pandas_opts(call["text"], call["o"]), "documented limit:", documented_limit(call, obs))
+    elif call["kind"] == "blocks":
         rec.update(text=call["text"], obs={"raised": obs["raised"], "hdr": obs["hdr"], "rows": obs["rows"]})
     else:
         rec.update(fr=call["fr"], lay=call["lay"], single=call["single"], wi=call["wi"],
@@ -487,7 +724,7 @@ def replay(ctx, obj):
     tspec, tcfg = ctx.model(ctx.spec("frame", "CsvBlocksTrace.tla"), {})
     rej = ctx.tlc_validate(tspec, [rec], tcfg)
     print("TLC:", rej)
-    return bool(rej)
+    return bool(rej) and not (call["kind"] == "opts" and documented_limit(call, obs))
 
 
 def selftest(ctx):
@@ -501,17 +738,25 @@ def selftest(ctx):
     ok = True
     rng = random.Random(3)
     frames = random_frames(rng, 14, True)
-    texts, fcases = export_cases(ctx, "{<<1, 3, 7>>, <<2, 1, 7>>}", frames, 16, "selftest-cases")
+    texts, fcases, ocases = export_cases(ctx, "{<<1, 3, 7>>, <<2, 1, 7>>}", frames, 16, "selftest-cases",
+                                         plan_optcases(random.Random(5), 1, 2))
     guard(texts, fcases, frames)
+    guard_opts(ocases)
     calls = plan(random.Random(4), texts, fcases, frames, all_bs_texts=8, ntext=30, nbs=3, nframe=60)
+    # reader options: for every option combination two blocksizes that split the file AFTER the top of the file
+    ocalls, r5 = [], random.Random(6)
+    for text, o, e in ocases:
+        good = [bs for bs in range(1, len(text) - 1) if e["cov"][bs - 1] and not e["r"]["err"]]
+        for bs in r5.sample(good, min(2, len(good))):
+            ocalls.append({"kind": "opts", "text": text, "o": o, "bs": bs, "sample": None, "expect": e})
     trials, allrecs, allowner = [], [], {}
 
-    def trial(name, cm, expect=True):
+    def trial(name, cm, expect=True, which=None):
         # the records of all mutants are decided by ONE TLC run at the end
         tag = "m%d-" % len(trials)
         gc.collect()               # expressions built under the previous mutant must not be reused (dask caches them by name)
         with cm:
-            recs, owner = collect(ctx, calls, parallel=False, prefix=tag)
+            recs, owner = collect(ctx, calls if which is None else which, parallel=False, prefix=tag)
         trials.append((tag, name, expect))
         allrecs.extend(recs)
         allowner.update(owner)
@@ -529,14 +774,22 @@ def selftest(ctx):
         CSV, "to_csv", 'kwargs["header"] = False\n        for d in dfs[1:]:', 'for d in dfs[1:]:'))
     trial("to_csv: the last partition is not written (multi-file)", source_mutant(
         CSV, "to_csv", "for d, f in zip(dfs[1:], files[1:])", "for d, f in zip(dfs[1:-1], files[1:-1])"))
+    trial("(none: unchanged tree on the reader-option calls)", contextlib.nullcontext(), expect=False, which=ocalls)
+    trial("read_pandas: integer header REPLACES the first non-skipped row (firstrow = header)", source_mutant(
+        CSV, "read_pandas", "firstrow += header", "firstrow = header"), which=ocalls)
+    trial("_read_csv: header= dropped for later blocks even when it is None", source_mutant(
+        CSV, "_read_csv", 'if rest_kwargs.get("header", 0) is not None:\n            rest_kwargs.pop("header", None)',
+        'rest_kwargs.pop("header", None)'), which=ocalls)
+    trial("_read_csv: skiprows applied again to every later block", source_mutant(
+        CSV, "_read_csv", 'rest_kwargs.pop("skiprows", None)', 'pass'), which=ocalls)
     found = {}
     decide(ctx, allrecs, allowner, lambda sig, what, rep, rid: found.setdefault(rid.split("-")[0] + "-", []).append(sig))
     for tag, name, expect in trials:
         new = [f for f in found.get(tag, []) if f not in ctx.known]
         good = (len(new) > 0) == expect
         ok &= good
-        print("mutant %-62s %s (%d violations on %d calls) %s" % (
-            name, ("DETECTED" if new else "no alarm") + ("" if good else "  <-- WRONG"), len(new), len(calls), sorted(set(new))[:2]))
+        print("mutant %-82s %s (%d violations) %s" % (
+            name, ("DETECTED" if new else "no alarm") + ("" if good else "  <-- WRONG"), len(new), sorted(set(new))[:2]))
     tspec, tcfg = ctx.model(ctx.spec("frame", "CsvBlocksTrace.tla"), {})
     text = list(b'a,b\n1,"x,y"\n2,z\n')
     fr = {"types": [1, 3], "names": [[97], [98]], "rows": [{"idx": 4, "cells": [[1, 7], [3, 2]]}, {"idx": 2, "cells": [[1, 0], [0, 0]]}]}
